@@ -11,7 +11,7 @@ from .gen import ID, AUTHORS, U64MAX, U32MAX, ev_tok, fl_tok, matches_spec
 KINDS = [0, 1, 1, 3, 7, 1059, 9999, 10000, 19999, 20000, 29999, 30000, 30000, 39999, 40000]
 TIMES = [0, 1, 100, 150, 200, 1000, U64MAX]
 P182 = b'p' * 182
-DVALS = [None, b'', b'x', b'x\x00', b'y', P182, P182 + b'A', P182 + b'B', b'q' * 300]
+DVALS = [None, b'', b'x', b'x\x00', b'y', P182, P182 + b'A', P182 + b'B', b'q' * 300, b'app:settings', b'app', b':']
 RECIPIENT = ID(0xd4)      # a key that authors nothing: it only receives gift wraps (and is vanished)
 IDPOOL = [ID(i) for i in range(1, 30)] + [ID(0xff), ID(0xfe), ID(0), bytes(31) + b'\x01', bytes(31) + b'\x02', b'\xff' * 31 + b'\x00']
 
@@ -50,12 +50,20 @@ class HistGen:
         # an "address family": one author and kind, and a set of confusable identifiers; most
         # stores of a C09 history stay inside it so that neighbouring addresses really collide
         self.family = None
-        if focus in ('C09',) or rng.random() < 0.25:
+        if focus in ('C09',) or rng.random() < (0.6 if focus in ('C12', 'C05') else 0.25):
             kind = rng.choice([30000, 30000, 39999, 30023, 10000, 0, 3, 19999])
             dsets = [[b'x', b'x\x00', b'x\x00\x00', b'', b'\x00', b'y'],
                      [P182, P182 + b'A', P182 + b'B', P182[:181], P182[:181] + b'\x00'],
                      [b'list', b'list\x00', b'lis', b'list2'],
-                     [b'q' * 300, b'q' * 300 + b'1', b'q' * 182, b'q' * 183]]
+                     [b'q' * 300, b'q' * 300 + b'1', b'q' * 182, b'q' * 183],
+                     # identifiers that contain the separator of the kind:author:identifier notation
+                     [b'app:settings', b'app', b'app:', b'app:settings:x', b':', b'']]
+            if focus == 'C12':
+                # refusals ("replaced", "deleted") of events whose identifier is longer than what the tag index keeps
+                kind = rng.choice([30000, 30023, 39999, 10000])
+                dsets = [dsets[1], dsets[3], dsets[3], dsets[0], dsets[4]]
+            if focus == 'C11':
+                dsets = dsets + [dsets[4], dsets[4]]
             self.family = dict(pk=rng.choice(AUTHORS), kind=kind, ds=rng.choice(dsets))
 
     def fresh_id(self):
@@ -105,8 +113,14 @@ class HistGen:
                   content=rng.choice([b'', b'hi', b'x' * rng.choice([1, 7, 300, 1500, 2500, 5000])]) if content is None else content)
         if kind == 1059 and rng.random() < 0.8:
             who = rng.choice(AUTHORS + [RECIPIENT, RECIPIENT]).hex().encode()
-            shape = rng.choice(['first', 'later', 'nonfirst', 'upper'])
-            if shape == 'first':
+            shape = rng.choice(['first', 'later', 'nonfirst', 'upper', 'nearmiss'])
+            if shape == 'nearmiss':
+                # a p value that is NOT the key's hex but shares its index key or a prefix with it: trailing NUL bytes (the index
+                # pads values with NULs to 182 bytes), one digit short / long, a different last digit
+                near = rng.choice([who + b'\x00', who + b'\x00' * 3, who + b'\x00' * 118, who + b'\x00' * 119, who + b'\x00' * 118 + b'x',
+                                   who[:-1], who + b'0', who[:-1] + (b'0' if who[-1:] != b'0' else b'1'), b' ' + who])
+                ev['tags'].insert(rng.choice([0, len(ev['tags'])]), [b'p', near])
+            elif shape == 'first':
                 ev['tags'].insert(0, [b'p', who])
             elif shape == 'later':
                 ev['tags'].append([b'p', who])
@@ -240,12 +254,12 @@ class HistGen:
             return {'op': 'store', 'ev': self.new_event(kind=1059, pk=ID(rng.choice([0xe1, 0xe2, 0xe3])))}
         if self.episode:
             return self.episode.pop(0)
-        if f in ('C11', 'C16') and rng.random() < 0.08:
+        if f in ('C11', 'C16') and rng.random() < (0.12 if f == 'C11' else 0.08):
             # an address episode: E1 at the address, the address deleted later, a newer E2 stored there, (rebuild /
             # reopen), E2 deleted by id, E1 and an event just older than the deletion offered again
             pk = rng.choice(AUTHORS)
             kind = rng.choice([30023, 30023, 10002])
-            d = rng.choice([b'ep', b'', b'q' * 300, b'w' * 256, b'u' * 437, b'u' * 200]) if kind == 30023 else b''
+            d = rng.choice([b'ep', b'', b'q' * 300, b'w' * 256, b'u' * 437, b'u' * 200, b'app:settings', b'a:b:c', b':', b'wss://relay.example/x']) if kind == 30023 else b''
             tg = [[b'd', d]] if kind == 30023 else []
             e1 = self.new_event(kind=kind, pk=pk, t=1000, tags=tg, content=b'e1')
             dl = self.new_event(kind=5, pk=pk, t=2000, tags=[[b'a', str(kind).encode() + b':' + pk.hex().encode() + b':' + d]], content=b'')
@@ -256,6 +270,22 @@ class HistGen:
             self.episode = [{'op': 'store', 'ev': dl}, {'op': 'store', 'ev': e2}, mid, {'op': 'store', 'ev': d2},
                             {'op': 'store', 'ev': e1}, {'op': 'store', 'ev': e3}]
             return {'op': 'store', 'ev': e1}
+        if f == 'C18' and rng.random() < 0.1:
+            # a vanish episode: a gift wrap naming P, gift wraps whose p value is NOT P's hex but shares its 182-byte index key or a
+            # prefix with it, an event by P - then P vanishes: exactly P's events and the wraps naming P go
+            P = rng.choice(AUTHORS + [RECIPIENT])
+            who = P.hex().encode()
+            nears = [who + b'\x00', who + b'\x00' * 118, who + b'\x00' * 119, who + b'\x00' * 118 + b'x', who[:-1], who + b'0', who.upper()]
+            eps = [{'op': 'store', 'ev': self.new_event(kind=1059, pk=ID(0xe1), t=rng.choice(TIMES), tags=[[b'p', who]], content=b'wrap')}]
+            for nv in rng.sample(nears, rng.choice([1, 2, 3])):
+                eps.append({'op': 'store', 'ev': self.new_event(kind=1059, pk=ID(rng.choice([0xe1, 0xe2])), t=rng.choice(TIMES),
+                                                               tags=rng.choice([[[b'p', nv]], [[b'p', nv], [b't', b'a']], [[b'e', b'x'], [b'p', nv, who]]]), content=b'near')})
+            if P in AUTHORS:
+                eps.append({'op': 'store', 'ev': self.new_event(kind=1, pk=P, tags=[[b't', b'a']], content=b'own')})
+            rng.shuffle(eps)
+            eps.append({'op': 'vanish', 'pk': P})
+            self.episode = eps[1:]
+            return eps[0]
         if f in ('C17', 'C18', 'C05') and rng.random() < 0.07:
             # an event whose tag name is one byte but not a letter, then removed by one of the four paths
             pk = rng.choice(AUTHORS)
@@ -322,6 +352,7 @@ def self_filters(ev):
             out.append(dict(base, tags=[c]))
             out.append(dict(base, tags=[c], authors=[ev['pk']]))
             out.append(dict(base, tags=[c], kinds=[ev['kind']]))
+            out.append(dict(base, tags=[c], authors=[ev['pk']], kinds=[ev['kind']]))
     return out
 
 
@@ -343,7 +374,7 @@ def rand_filter(rng, events):
     base = dict(ids=[], authors=[], kinds=[], tags=[], since=None, until=None, limit=None)
     f = dict(base)
     ev = rng.choice(events) if events and rng.random() < 0.8 else None
-    shape = rng.choice(['ids', 'ak', 'at', 'kt', 't', 'a', 'scrape', 'scrape', 'mix'])
+    shape = rng.choice(['ids', 'ak', 'at', 'kt', 't', 'a', 'scrape', 'scrape', 'mix', 'akt'])
     def some(pool, hit, kmax=3):
         l = [rng.choice(pool) for _ in range(rng.randrange(1, kmax + 1))]
         if hit is not None and rng.random() < 0.7:
@@ -353,6 +384,9 @@ def rand_filter(rng, events):
         cs = []
         for _ in range(rng.choice([1, 1, 2])):
             src = [t for e in events for t in e['tags'] if len(t) >= 2 and len(t[0]) == 1] if events else []
+            own = [t for t in ev['tags'] if len(t) >= 2 and len(t[0]) == 1] if ev else []
+            if own and rng.random() < 0.5:
+                src = own          # a constraint the chosen event itself satisfies (any of its tags, not only the first of a name)
             if src and rng.random() < 0.8:
                 t = rng.choice(src)
                 c = [t[0]] + [rng.choice([b'a', b'b', b'zz', b'']) for _ in range(rng.choice([0, 0, 1, 2]))]
@@ -363,11 +397,11 @@ def rand_filter(rng, events):
         return cs
     if shape in ('ids', 'mix'):
         f['ids'] = some(IDPOOL[:12], ev['id'] if ev else None, 5)
-    if shape in ('ak', 'at', 'a', 'mix'):
+    if shape in ('ak', 'at', 'a', 'mix', 'akt'):
         f['authors'] = some(AUTHORS, ev['pk'] if ev else None, 2)
-    if shape in ('ak', 'kt') or (shape == 'mix' and rng.random() < 0.5):
+    if shape in ('ak', 'kt', 'akt') or (shape == 'mix' and rng.random() < 0.5):
         f['kinds'] = some(KINDS, ev['kind'] if ev else None, 3)
-    if shape in ('at', 'kt', 't') or (shape == 'mix' and rng.random() < 0.5):
+    if shape in ('at', 'kt', 't', 'akt') or (shape == 'mix' and rng.random() < 0.5):
         f['tags'] = tagc()
     tt = ev['t'] if ev else rng.choice(TIMES)
     f['since'] = rng.choice([None, None, None, 0, tt, tt, max(0, tt - 1), min(U64MAX, tt + 1), 150, U64MAX])
